@@ -201,25 +201,37 @@ R.ufunc("id_match", ["X509Certificate", "str", "bool"], "bool")  # subjectAltNam
 R.ufunc("pem_valid", ["bytes"], "bool")
 R.ufunc("pem_certs", ["bytes"], "list[X509Certificate]")
 R.ufunc("x509_error_string", ["int"], "str")
+R.ufunc("ossl_refuses", ["X509Certificate"], "bool")  # OpenSSL cannot parse the DER of a certificate that `cryptography` parsed
 
 _X = dict(trusted=True)
 R.contract("utcnow", returns="float", ensures=["result == wall_clock(0)"], note="tls.py one-liner around datetime.now(timezone.utc): the wall clock", **_X)
 R.contract("ipaddress.ip_address", params={"a0": "str"}, returns="Any", raises={"ValueError": "not ip_literal(a0)"}, note="stdlib: ValueError unless the text is an IP address", **_X)
 _SI = "service_identity.cryptography."
+# (C05) service_identity reads certificate.extensions, which `cryptography` parses LAZILY: for a certificate that
+# load_der_x509_certificate accepted the access can still raise ValueError (malformed extension value), x509.DuplicateExtension
+# or x509.UnsupportedGeneralNameType (both direct subclasses of Exception) - observed natively with a self-made certificate
+# whose subjectAltName value is garbage (tools/repro/c05_tls_hostile_certificate.py san_garbage).  PEER-controlled.
+# ext_bad(cert): the certificate's extensions do not parse (an uninterpreted property of the certificate, like id_invalid);
+# modelled outcome: ValueError (the one observed); the repair also catches the two x509 exception classes.
+R.ufunc("ext_bad", ["X509Certificate"], "bool")
 R.contract(_SI + "verify_certificate_hostname", params={"a0": "X509Certificate", "a1": "str"},
-           raises={"CertificateError": "id_invalid(a0)", "VerificationError": "not id_invalid(a0) and not id_match(a0, a1, False)"},
-           note="service_identity: raises VerificationError on mismatch, a CertificateError subclass for unusable certificates", **_X)
+           raises={"ValueError": "ext_bad(a0)", "CertificateError": "not ext_bad(a0) and id_invalid(a0)", "VerificationError": "not ext_bad(a0) and not id_invalid(a0) and not id_match(a0, a1, False)"},
+           note="service_identity: raises VerificationError on mismatch, a CertificateError subclass for unusable certificates; cryptography's lazy extension parser may raise", **_X)
 R.contract(_SI + "verify_certificate_ip_address", params={"a0": "X509Certificate", "a1": "str"},
-           raises={"CertificateError": "id_invalid(a0)", "VerificationError": "not id_invalid(a0) and not id_match(a0, a1, True)"},
+           raises={"ValueError": "ext_bad(a0)", "CertificateError": "not ext_bad(a0) and id_invalid(a0)", "VerificationError": "not ext_bad(a0) and not id_invalid(a0) and not id_match(a0, a1, True)"},
            note="service_identity: same for iPAddress entries", **_X)
-R.contract(_SI + "extract_patterns", params={"a0": "X509Certificate"}, returns="list[Any]", note="service_identity: the certificate's ID patterns (only used for the alert text)", **_X)
+R.contract(_SI + "extract_patterns", params={"a0": "X509Certificate"}, returns="list[Any]", note="service_identity: the certificate's ID patterns (only used for the alert text; reached only after verify_certificate_* already read the extensions successfully)", **_X)
 R.contract("str.join", params={"a0": "str", "a1": "list[str]"}, returns="str", note="builtin", **_X)
 R.contract("certifi.where", returns="str", ensures=["result == certifi_path(0)"], note="certifi: path of the bundled CA file", **_X)
 R.contract("crypto.X509Store", returns="X509Store", allocates=True,
            ensures=["forall(lambda c: not (c in result.g_trusted), types={'c': 'X509Certificate'})", "result.g_loc == 0"],
            note="pyOpenSSL: a new, EMPTY store", **_X)
 R.contract("crypto.X509.from_cryptography", params={"a0": "X509Certificate"}, returns="X509Certificate", ensures=["result == a0"],
-           note="pyOpenSSL conversion: the model identifies the OpenSSL X509 object with the certificate it denotes", **_X)
+           # (C05) the conversion re-parses the DER with OpenSSL, which refuses some certificates that `cryptography` accepted
+           # (e.g. a non-universal string tag in a name): OpenSSL.crypto.Error - observed natively for leaf and chain
+           # certificates (tools/repro/c05_tls_hostile_certificate.py chain_openssl).  PEER-controlled.
+           raises={"Error": "ossl_refuses(a0)"},
+           note="pyOpenSSL conversion: the model identifies the OpenSSL X509 object with the certificate it denotes; OpenSSL.crypto.Error when OpenSSL cannot parse it", **_X)
 R.contract("X509Store.add_cert", params={"cert": "X509Certificate"}, modifies=["self.g_trusted"],
            ensures=["forall(lambda c: (c in self.g_trusted) == ((c in old(self.g_trusted)) or c == cert), types={'c': 'X509Certificate'})"],
            note="pyOpenSSL: 'Adds a trusted certificate to this store'", **_X)
@@ -247,7 +259,14 @@ def vc_expired(certificate):
 
 def vc_name_bad(certificate, server_name):
     '''RFC 6125 / RFC 9110 4.3.4 reference identity check, only when a name was requested'''
-    return server_name is not None and (id_invalid(some(certificate)) or not id_match(some(certificate), some(server_name), ip_literal(some(server_name))))
+    return server_name is not None and (ext_bad(some(certificate)) or id_invalid(some(certificate)) or not id_match(some(certificate), some(server_name), ip_literal(some(server_name))))
+
+def any_refused(xs):
+    return exists(lambda k: 0 <= k < len(xs) and ossl_refuses(sel(xs, k)))
+
+def vc_peer_refused(certificate, chain):
+    # (C05) OpenSSL cannot parse the leaf or one of the extra certificates the PEER supplied: refused like a failed verification
+    return ossl_refuses(some(certificate)) or any_refused(chain)
 
 def vc_loc(cadata, cafile, capath):
     '''location token the store must have been loaded with: the certifi bundle iff nothing is configured, the configured
@@ -257,7 +276,7 @@ def vc_loc(cadata, cafile, capath):
 
 def vc_config_bad(cadata, cafile, capath):
     '''the LOCAL configuration cannot be loaded (not influenced by the peer)'''
-    return ((cadata is not None and not pem_valid(some(cadata)))
+    return ((cadata is not None and (not pem_valid(some(cadata)) or any_refused(pem_certs(some(cadata)))))
             or (cadata is None and cafile is None and capath is None and not locs_ok(certifi_path(0), None))
             or ((cafile is not None or capath is not None) and not locs_ok(cafile, capath)))
 
@@ -277,7 +296,11 @@ R.contract(
         # the callers pass Context._peer_certificate (set by the Certificate message that precedes CertificateVerify)
         "AttributeError": "certificate is None",
         "AlertCertificateExpired": "certificate is not None and vc_expired(certificate)",
-        "AlertBadCertificate": "%s and (vc_name_bad(certificate, server_name) or (not vc_config_bad(cadata, cafile, capath) and not vc_chain_ok(certificate, chain, cadata, cafile, capath)))" % _VC_PRE,
+        # (C05) ... including a certificate whose extensions do not parse (name check) or that OpenSSL cannot parse (leaf /
+        # peer-supplied chain).  On the unchanged tree these two causes surface as ValueError / OpenSSL.crypto.Error instead:
+        # the clauses `raises.ValueError.if` / `raises.Error.if` below are REFUTED there (known finding, natively reproduced:
+        # tools/repro/c05_tls_hostile_certificate.py; repair tools/fixes/c05_tls_nonalert2.patch)
+        "AlertBadCertificate": "%s and (vc_name_bad(certificate, server_name) or (not vc_config_bad(cadata, cafile, capath) and (vc_peer_refused(certificate, chain) or not vc_chain_ok(certificate, chain, cadata, cafile, capath))))" % _VC_PRE,
         # local configuration errors (never caused by the peer)
         "ValueError": "%s and not vc_name_bad(certificate, server_name) and cadata is not None and not pem_valid(some(cadata))" % _VC_PRE,
         "Error": "%s and not vc_name_bad(certificate, server_name) and not (cadata is not None and not pem_valid(some(cadata))) and vc_config_bad(cadata, cafile, capath)" % _VC_PRE,
@@ -287,13 +310,14 @@ R.contract(
             "0 <= _i0 <= len(_seq0)",
             "forall(lambda c: (c in store.g_trusted) == exists(lambda i: 0 <= i < _i0 and sel(_seq0, i) == c), types={'c': 'X509Certificate'})",
             "store.g_loc == old_loc",
+            "forall(lambda i: implies(0 <= i < _i0, not ossl_refuses(sel(_seq0, i))))",
         ],
         modifies=["store.g_trusted"],
     ),
         # any other loop (there is none in the function as it stands): no knowledge survives it
         "default": dict(invariant=[], modifies=["X509Store.g_trusted[*]", "X509Store.g_loc[*]"])},
     ghost_at={"if cadata is not None:": {"old_loc": "store.g_loc"}},
-    comps={0: ["_y == cert"]},
+    comps={0: ["_y == cert", "not ossl_refuses(cert)"]},
     # proof steps (assert-then-assume) right before the verifier runs: the store's trusted set / location token and the
     # context's untrusted set ARE the sets of the specification (array extensionality, one small obligation each), so the
     # verdict clauses below follow by congruence of chain_ok
@@ -310,7 +334,7 @@ R.contract(
         "not vc_name_bad(certificate, server_name)",
         "vc_chain_ok(certificate, chain, cadata, cafile, capath)",
     ],
-    prop=["C03"],
+    prop=["C03", "C05"],
 )
 
 # ------------------------------------------------------------------------------------------------ QUIC transport parameters
